@@ -136,6 +136,10 @@ func (b *Bulker) Run(ctx context.Context, bulk Bulk, result chan BulkElementResu
 }
 
 func (b *Bulker) processElement(ctx context.Context, ctrl ledgercontroller.Controller, schemaVersion string, data BulkElement) (any, uint64, error) {
+	if data.parseError != nil {
+		return nil, 0, fmt.Errorf("error parsing element: %s", data.parseError)
+	}
+
 	switch data.Action {
 	case ActionCreateTransaction:
 		rs, err := data.Data.(TransactionRequest).ToCore()
